@@ -98,3 +98,20 @@ package types
 //@   loop 1 invariant 0 <= rangeindex + 1 && len(importedBridgeExitsHashes) == len(c.ImportedBridgeExits) && off(importedBridgeExitsHashes) == 0 && fresh(ref(importedBridgeExitsHashes)) && len(bridgeExitsHashes) == len(c.BridgeExits) && off(bridgeExitsHashes) == 0
 //@   loop 1 invariant forall(k, 0, len(c.BridgeExits), len(bridgeExitsHashes[k]) == 32 && hashOf(seq(bridgeExitsHashes[k])) == exitLeafValue(c.BridgeExits[k].LeafType, c.BridgeExits[k].TokenInfo.OriginNetwork, c.BridgeExits[k].TokenInfo.OriginTokenAddress, c.BridgeExits[k].DestinationNetwork, c.BridgeExits[k].DestinationAddress, bigval(c.BridgeExits[k].Amount), ite(len(c.BridgeExits[k].Metadata) == 0, bytesOf(hb(keccak(emptyB())), 32), bytesOf(seq(c.BridgeExits[k].Metadata), len(c.BridgeExits[k].Metadata)))))
 //@   loop 1 invariant forall(k, 0, rangeindex + 1, len(importedBridgeExitsHashes[k]) == 32 && hashOf(seq(importedBridgeExitsHashes[k])) == ibeHash(exitLeafValue(c.ImportedBridgeExits[k].BridgeExit.LeafType, c.ImportedBridgeExits[k].BridgeExit.TokenInfo.OriginNetwork, c.ImportedBridgeExits[k].BridgeExit.TokenInfo.OriginTokenAddress, c.ImportedBridgeExits[k].BridgeExit.DestinationNetwork, c.ImportedBridgeExits[k].BridgeExit.DestinationAddress, bigval(c.ImportedBridgeExits[k].BridgeExit.Amount), ite(len(c.ImportedBridgeExits[k].BridgeExit.Metadata) == 0, bytesOf(hb(keccak(emptyB())), 32), bytesOf(seq(c.ImportedBridgeExits[k].BridgeExit.Metadata), len(c.ImportedBridgeExits[k].BridgeExit.Metadata)))), claimHash(c.ImportedBridgeExits[k].ClaimData), keccak(catB(emptyB(), leB(giVal(c.ImportedBridgeExits[k].GlobalIndex.MainnetFlag, c.ImportedBridgeExits[k].GlobalIndex.RollupIndex, c.ImportedBridgeExits[k].GlobalIndex.LeafIndex))))))
+
+// ---- the full-execution-proof commitment (C10): keccak(new local exit root ‖ keccak(chunks) ‖ height as 8
+// little-endian bytes ‖ aggchain params), one 64-byte chunk per imported exit = canonical global index (little endian)
+// ‖ exit leaf value, in order. fepChunks is the ghost sequence of the chunks' byte strings.
+//@ ghost var fepChunks map[int]Bytes
+//@ func (c *Certificate) FEPHashToSign
+//@   props C10
+//@   requires c != nil
+//@   requires forall(k, 0, len(c.ImportedBridgeExits), c.ImportedBridgeExits[k] != nil && c.ImportedBridgeExits[k].BridgeExit != nil && c.ImportedBridgeExits[k].BridgeExit.TokenInfo != nil && c.ImportedBridgeExits[k].BridgeExit.Amount != nil && c.ImportedBridgeExits[k].GlobalIndex != nil && 0 <= bigval(c.ImportedBridgeExits[k].BridgeExit.Amount) && bigval(c.ImportedBridgeExits[k].BridgeExit.Amount) < 115792089237316195423570985008687907853269984665640564039457584007913129639936)
+//@   requires typeIs(c.AggchainData, *AggchainDataProof) ==> cast(c.AggchainData, *AggchainDataProof) != nil
+//@   modifies fepChunks
+//@   choose fepChunks with forall(k, 0, len(c.ImportedBridgeExits), fepChunks[k] == bytesOf(seq(chunks[k]), len(chunks[k])))
+//@   ensures[chunks-commit-to-index-and-exit] forall(k, 0, len(c.ImportedBridgeExits), fepChunks[k] == catB(catB(emptyB(), leB(giVal(c.ImportedBridgeExits[k].GlobalIndex.MainnetFlag, c.ImportedBridgeExits[k].GlobalIndex.RollupIndex, c.ImportedBridgeExits[k].GlobalIndex.LeafIndex))), bytesOf(hb(exitLeafValue(c.ImportedBridgeExits[k].BridgeExit.LeafType, c.ImportedBridgeExits[k].BridgeExit.TokenInfo.OriginNetwork, c.ImportedBridgeExits[k].BridgeExit.TokenInfo.OriginTokenAddress, c.ImportedBridgeExits[k].BridgeExit.DestinationNetwork, c.ImportedBridgeExits[k].BridgeExit.DestinationAddress, bigval(c.ImportedBridgeExits[k].BridgeExit.Amount), ite(len(c.ImportedBridgeExits[k].BridgeExit.Metadata) == 0, bytesOf(hb(keccak(emptyB())), 32), bytesOf(seq(c.ImportedBridgeExits[k].BridgeExit.Metadata), len(c.ImportedBridgeExits[k].BridgeExit.Metadata))))), 32)))
+//@   ensures[commitment] result == keccak(catB(catB(catB(catB(emptyB(), bytesOf(hb(c.NewLocalExitRoot), 32)), bytesOf(hb(keccak(chainB(fepChunks, len(c.ImportedBridgeExits)))), 32)), leNB(c.Height, 8)), ite(typeIs(c.AggchainData, *AggchainDataProof), bytesOf(hb(cast(c.AggchainData, *AggchainDataProof).AggchainParams), 32), bytesOf(hb(keccak(emptyB())), 32))))
+//@   loop 0 invariant forall(k, 0, len(c.ImportedBridgeExits), c.ImportedBridgeExits[k] != nil && c.ImportedBridgeExits[k].BridgeExit != nil && c.ImportedBridgeExits[k].BridgeExit.TokenInfo != nil && c.ImportedBridgeExits[k].BridgeExit.Amount != nil && c.ImportedBridgeExits[k].GlobalIndex != nil && 0 <= bigval(c.ImportedBridgeExits[k].BridgeExit.Amount) && bigval(c.ImportedBridgeExits[k].BridgeExit.Amount) < 115792089237316195423570985008687907853269984665640564039457584007913129639936)
+//@   loop 0 invariant 0 <= rangeindex + 1 && len(chunks) == rangeindex + 1 && off(chunks) == 0 && fresh(ref(chunks))
+//@   loop 0 invariant forall(k, 0, rangeindex + 1, bytesOf(seq(chunks[k]), len(chunks[k])) == catB(catB(emptyB(), leB(giVal(c.ImportedBridgeExits[k].GlobalIndex.MainnetFlag, c.ImportedBridgeExits[k].GlobalIndex.RollupIndex, c.ImportedBridgeExits[k].GlobalIndex.LeafIndex))), bytesOf(hb(exitLeafValue(c.ImportedBridgeExits[k].BridgeExit.LeafType, c.ImportedBridgeExits[k].BridgeExit.TokenInfo.OriginNetwork, c.ImportedBridgeExits[k].BridgeExit.TokenInfo.OriginTokenAddress, c.ImportedBridgeExits[k].BridgeExit.DestinationNetwork, c.ImportedBridgeExits[k].BridgeExit.DestinationAddress, bigval(c.ImportedBridgeExits[k].BridgeExit.Amount), ite(len(c.ImportedBridgeExits[k].BridgeExit.Metadata) == 0, bytesOf(hb(keccak(emptyB())), 32), bytesOf(seq(c.ImportedBridgeExits[k].BridgeExit.Metadata), len(c.ImportedBridgeExits[k].BridgeExit.Metadata))))), 32)))
